@@ -152,10 +152,20 @@ func refParse(text string, known map[string]bool) *refTopo {
 			continue
 		}
 		flags := f[2]
-		if strings.Contains(flags, "noaddr") || strings.Contains(flags, "handshake") || strings.Contains(flags, "fail") {
+		// the flags column is a comma-separated list: fail / fail? (possibly failing), handshake, noaddr make a node unusable;
+		// "nofailover" (a replica that must not be promoted) does not - it merely CONTAINS the letters of "fail"
+		has := func(fl string) bool {
+			for _, t := range strings.Split(flags, ",") {
+				if t == fl {
+					return true
+				}
+			}
+			return false
+		}
+		if has("noaddr") || has("handshake") || has("fail") || has("fail?") {
 			continue
 		}
-		if !strings.Contains(flags, "master") && !strings.Contains(flags, "slave") {
+		if !has("master") && !has("slave") {
 			continue
 		}
 		if f[7] != "connected" {
@@ -168,7 +178,7 @@ func refParse(text string, known map[string]bool) *refTopo {
 		if strings.HasPrefix(addr, ":") || !strings.Contains(addr, ":") {
 			continue
 		}
-		n := node{name: f[0], addr: addr, master: f[3], isMaster: strings.Contains(flags, "master")}
+		n := node{name: f[0], addr: addr, master: f[3], isMaster: has("master")}
 		if n.isMaster {
 			bad := false
 			for _, s := range f[8:] {
@@ -413,7 +423,8 @@ func histNames(hist []int, alpha []c14msg) string {
 // line inside an otherwise valid description; each is judged as a history of length 1 and 2 (after the base text).
 func c14Texts() []c14msg {
 	var out []c14msg
-	flags := []string{"master", "myself,master", "slave", "myself,slave", "master,fail", "slave,fail", "master,handshake", "slave,handshake", "master,noaddr", "noflags"}
+	flags := []string{"master", "myself,master", "slave", "myself,slave", "master,fail", "slave,fail", "master,handshake", "slave,handshake", "master,noaddr", "noflags",
+		"slave,nofailover", "myself,slave,nofailover", "master,nofailover", "slave,fail?", "master,fail?,nofailover"}
 	links := []string{"connected", "disconnected"}
 	slotShapes := [][]string{{"10923-16383"}, {"10923-12000", "12002-16383", "12001"}, {"10923-16383", "[11000->-bbb]"}, {}, {"10923-16383", "[93-<-aaa]", "[94-<-aaa]"}}
 	for _, fl := range flags {
